@@ -144,5 +144,6 @@ def cases(tier):
                H1a(2, None, False, d=3), H1a(2, 1, True, d=3)]
         for unique in (False, True):
             cs += [H1b(4, 2, True, unique, "sz"), H1b(4, None, False, unique, "sz"), H1b(2, 1, False, unique, "sx")]
-        cs += [H2(4, 2, 2, True), H2(4, 3, 1, True), H2(4, 3, None)]
+            cs += [H1b(2, 1, True, unique, "syz"), H1b(3, None, False, unique, "half"), H1b(4, 1, True, unique, "sz")]
+        cs += [H2(4, 2, 2, True), H2(4, 3, 1, True), H2(4, 3, None), H2(4, 2, None), H2(4, 2, 3, True), H1a(2, 2, True, d=3)]
     return cs
